@@ -43,7 +43,12 @@ def main() -> int:
     ctx = core.Ctx(a.prop, a.tier, prog, seed)
     ctx.explanation = mod.EXPLANATION
     mod.run(ctx)
-    ctx.floors()
+    if not ctx.violations:
+        # a definite violation is reported even when another rule lost its anchors;
+        # a vacuous pass is never reported
+        if ctx.incomplete:
+            raise core.AnalysisIncomplete('; '.join(ctx.incomplete))
+        ctx.floors()
     if a.replay:
         with open(a.replay) as fh:
             want = json.load(fh)
